@@ -16,7 +16,9 @@ TRUSTED = c01.TRUSTED
 ASSUMPTIONS = c01.ASSUMPTIONS + ["escalation deadline semantics under clock jumps: the deadline is the minimum over all observations t made while STOPPING of t + stopwaitsecs (what 'never postpones beyond stopwaitsecs after the jump' means operationally)"]
 RULE = ("operation histories as for C01 but biased: most histories contain a stop request (RPC or group stop) in STARTING/RUNNING/BACKOFF "
         "followed by passes at, just before and after the deadline, children that die at once / late / only on SIGKILL / just before the "
-        "signal (ESRCH), clock jumps in both directions while STOPPING; non-trivial = at least one signal delivered; distinct = distinct trace")
+        "signal (ESRCH), clock jumps in both directions while STOPPING; about a third of the histories are daemon shutdowns/restarts: "
+        "the request is the group-wide stop_all() of runforever(), issued again before every pass (mood SHUTDOWN/RESTARTING, passes at most "
+        "a second apart, a child that survives the stop signal) until well past the deadline; non-trivial = at least one signal delivered; distinct = distinct trace")
 
 
 def parse(line):
@@ -66,6 +68,15 @@ def monitor(ctx, cfg, ops, lines):
                     ctx.count('sigkill')
                 else:
                     ctx.count('pass-before-deadline')
+        elif k == 'groupstop' and state == 'STOPPING' and pid != 0:
+            # the daemon's stop_all() of a later shutdown pass: the one stop request is already in flight -- the stopsignal was
+            # delivered "at once", SIGKILL is due stopwaitsecs after *that*; nothing may be signalled and `due` stays as it is
+            if kills:
+                ctx.violation('stop-signal-repeated', 'group stop (the stop_all() of a shutdown pass) of a process that is already STOPPING '
+                              'delivered %r at %d; the stop signal of this request was already delivered, SIGKILL is due at %d' % (kills, now, due), inp)
+            if st2 != 'STOPPING':
+                ctx.violation('stopping-left-without-reap', 'group stop of a STOPPING process left state %s' % st2, inp)
+            ctx.count('groupstop-while-stopping')
         elif k == 'reap' and state == 'STOPPING':
             if st2 != 'STOPPED':
                 ctx.violation('not-stopped-after-reap', 'child of a STOPPING process reaped with status %d%s, state %s%s' % (
@@ -93,6 +104,27 @@ def gen_ops_c04(rng, cfg):
     now = [rng.choice([1000, 70000]) * TICK]
     nextpid = [200]
     phase = ['boot']
+    # a daemon shutdown/restart: once the process is up, every main-loop pass is `stop_groups[-1].stop_all()` followed by
+    # `transition()` in mood SHUTDOWN/RESTARTING, passes at most ~1s apart (the poll timeout), the child survives for a while
+    shutdown = {'on': rng.random() < 0.33, 'begun': False, 'half': 0, 'mood': rng.choice([-1, -1, 0]),
+                'after': rng.choice([0, 1, 2, 4]), 'seen': 0, 'stubborn': rng.random() < 0.7}
+    def shutdown_op(proc, st):
+        from supervisor.states import ProcessStates as PSt
+        sd = shutdown
+        sd['begun'] = True
+        if sd['half'] == 0:                 # top of the pass: stop_all(); the clock moved on since the last pass
+            r = rng.random()
+            step = rng.choice([256, 512, TICK, TICK, TICK, TICK + 1]) if r < 0.9 else (-rng.choice([TICK, 3 * TICK]) if r < 0.95 else wait)
+            now[0] = max(TICK, now[0] + step)
+            sd['half'] = 1
+            return {'op': 'groupstop', 'now': now[0], 'kill': killres() if st != PSt.STOPPING else rng.choice(['ok', 'ok', 'esrch', 'fail'])}
+        if sd['half'] == 1:                 # the rest of the pass: reap what died, then transition()
+            sd['half'] = 2
+            if proc.pid and st == PSt.STOPPING and rng.random() < (0.03 if sd['stubborn'] else 0.3):
+                return {'op': 'reap', 'now': now[0], 'es': rng.choice([0, 1, -1, 2]), 'busy': False}
+        sd['half'] = 0
+        now[0] += rng.choice([0, 0, 1, 16])
+        return {'op': 'transition', 'now': now[0], 'mood': sd['mood'], 'spawn': spawn(), 'kill': 'ok' if rng.random() < 0.9 else killres()}
     def killres():
         r = rng.random()
         return 'ok' if r < 0.8 else ('esrch' if r < 0.93 else 'fail')
@@ -105,6 +137,13 @@ def gen_ops_c04(rng, cfg):
         from supervisor.states import ProcessStates as PSt
         st = proc.get_state()
         r = rng.random()
+        if shutdown['on']:
+            if shutdown['begun'] and st in (PSt.STARTING, PSt.RUNNING, PSt.BACKOFF, PSt.STOPPING):
+                return shutdown_op(proc, st)
+            if not shutdown['begun'] and st in (PSt.STARTING, PSt.RUNNING, PSt.BACKOFF):
+                shutdown['seen'] += 1
+                if shutdown['seen'] > shutdown['after']:
+                    return shutdown_op(proc, st)
         if st == PSt.STOPPING:
             # passes just before / at / after the deadline, jumps, reaps
             d = int(round(proc.delay * TICK))
@@ -123,6 +162,8 @@ def gen_ops_c04(rng, cfg):
                 return {'op': 'stopreport', 'now': now[0]}
             if r < 0.92:
                 return {'op': 'rpcsignal', 'now': now[0], 'mood': 1, 'sig': rng.choice([1, 10]), 'kill': killres()}
+            if r < 0.96:
+                return {'op': 'groupstop', 'now': now[0], 'kill': killres()}
             return {'op': 'rpcstop', 'now': now[0], 'mood': 1, 'kill': killres()}
         now[0] = max(TICK, now[0] + rng.choice([0, 256, TICK, TICK, 2 * TICK, 6 * TICK, -TICK]))
         if st in (PSt.STARTING, PSt.RUNNING, PSt.BACKOFF) and r < 0.35:
@@ -138,6 +179,31 @@ def gen_ops_c04(rng, cfg):
             return {'op': 'rpcstart', 'now': now[0], 'mood': 1, 'spawn': spawn()}
         return {'op': 'transition', 'now': now[0], 'mood': 1 if rng.random() < 0.9 else 0, 'spawn': spawn(), 'kill': killres()}
     return gen
+
+
+def _shutdown_script(t0, wait_s, passes, mood):
+    """start, reach RUNNING, then a daemon shutdown: stop_all() + transition() once a second, the child ignores the stop signal"""
+    ops = [{'op': 'transition', 'now': t0, 'mood': 1, 'spawn': ('ok', 4242), 'kill': 'ok'},
+           {'op': 'transition', 'now': t0 + 2 * TICK, 'mood': 1, 'spawn': ('ok', 4243), 'kill': 'ok'}]
+    t = t0 + 4 * TICK
+    for _ in range(passes):
+        ops.append({'op': 'groupstop', 'now': t, 'kill': 'ok'})
+        ops.append({'op': 'transition', 'now': t, 'mood': mood, 'spawn': ('ok', 4244), 'kill': 'ok'})
+        t += TICK
+    ops.append({'op': 'reap', 'now': t, 'es': -1, 'busy': False})
+    ops.append({'op': 'groupstop', 'now': t, 'kill': 'ok'})
+    ops.append({'op': 'transition', 'now': t, 'mood': mood, 'spawn': ('ok', 4245), 'kill': 'ok'})
+    return ops
+
+
+CORPUS = [
+    # seeded C04-9 shape: supervisord shutdown, stopwaitsecs=5, stopasgroup=false, killasgroup=true, child dies only on SIGKILL
+    ({'startsecs': 1, 'startretries': 3, 'autostart': True, 'autorestart': 'false', 'exitcodes': [0], 'stopsignal': 15,
+      'stopwaitsecs': 5, 'stopasgroup': False, 'killasgroup': True}, _shutdown_script(1000 * TICK, 5, 13, -1)),
+    # the same as a restart (mood RESTARTING), whole-group signals, two escalations
+    ({'startsecs': 0, 'startretries': 1, 'autostart': True, 'autorestart': 'true', 'exitcodes': [0], 'stopsignal': 2,
+      'stopwaitsecs': 3, 'stopasgroup': True, 'killasgroup': True}, _shutdown_script(70000 * TICK, 3, 9, 0)),
+]
 
 
 def one_history(ctx, rng, nops, cfg=None, script=None):
@@ -165,7 +231,7 @@ def run(ctx):
         cases.append((cfg_line(cfg), [op_line(o) for o in ops]))
         impls.append(lines)
         ctx.case_done(tuple(lines), nontrivial=any('kill:' in l for l in lines))
-    for cfg, script in c01.CORPUS:
+    for cfg, script in c01.CORPUS + CORPUS:
         add(*one_history(ctx, rng, len(script), cfg, script))
     total = ctx.n(5000, 60000)
     done = 0
